@@ -415,12 +415,31 @@ pub proof fn lemma_sw_none(a: Seq<bool>, vec: Seq<ValidatorInfo>, k: int)
     ensures sw(a, vec, k) == 0,
     decreases k
 { if k > 0 { lemma_sw_none(a, vec, k - 1); } }
-// R-stub (UNVERIFIED statement): the key-selection expression of TimeoutQC::verify
-//   self.map.clone().into_iter().flat_map(|(msg, signers)| { keys().enumerate().filter(|(i,_)| signers.0[*i]).map(|(_,pk)| (msg.clone(), pk)).collect() })
-// is taken to produce exactly all_pairs(..); nested closures over an owned map are not woven yet.
+pub open spec fn deref_pairs(s: Seq<(ReplicaTimeout, &PublicKey)>) -> Seq<(ReplicaTimeout, PublicKey)> {
+    s.map_values(|x: (ReplicaTimeout, &PublicKey)| (x.0, *x.1))
+}
+// schedule.keys().enumerate().filter(P).map(M).collect::<Vec<_>>()     (A1)
 #[verifier::external_body]
-pub fn stub_tqc_messages_and_keys(m: &TqcMap, s: &Schedule) -> (r: MsgKeys<ReplicaTimeout>)
-    ensures r.pairs() == all_pairs(m.entries(), s.vec@, m.entries().len() as int)
+pub fn tmpl_schedule_keys_enumerate_filter_map_collect<'a,
+    P: FnMut(&(usize, &'a PublicKey)) -> bool, M: FnMut((usize, &'a PublicKey)) -> (ReplicaTimeout, &'a PublicKey)>(
+    s: &'a Schedule, p: P, m: M, Ghost(gp): Ghost<spec_fn(int) -> bool>, Ghost(gm): Ghost<spec_fn(int) -> (ReplicaTimeout, PublicKey)>)
+    -> (r: Vec<(ReplicaTimeout, &'a PublicKey)>)
+    requires
+        forall|i: usize| i < s.vec@.len() ==> p.requires((&(i, #[trigger] &s.vec@[i as int].key),)),
+        forall|i: usize, b: bool| i < s.vec@.len() && #[trigger] p.ensures((&(i, &s.vec@[i as int].key),), b) ==> b == gp(i as int),
+        forall|i: usize| i < s.vec@.len() ==> m.requires(((i, #[trigger] &s.vec@[i as int].key),)),
+        forall|i: usize, x: (ReplicaTimeout, &'a PublicKey)| i < s.vec@.len() && #[trigger] m.ensures(((i, &s.vec@[i as int].key),), x) ==> (x.0, *x.1) == gm(i as int),
+    ensures deref_pairs(r@) == sel_seq(gp, gm, s.vec@.len() as int),
+{ unimplemented!() }
+// map.clone().into_iter().flat_map(F)     (A1: entries in key order, results concatenated in order)
+#[verifier::external_body]
+pub fn tmpl_map_clone_into_iter_flat_map<'a, F: FnMut((ReplicaTimeout, Signers)) -> Vec<(ReplicaTimeout, &'a PublicKey)>>(
+    m: &TqcMap, f: F, Ghost(vec): Ghost<Seq<ValidatorInfo>>) -> (r: MsgKeys<ReplicaTimeout>)
+    requires
+        forall|j: int| 0 <= j < m.entries().len() ==> f.requires((#[trigger] m.entries()[j],)),
+        forall|j: int, v: Vec<(ReplicaTimeout, &'a PublicKey)>| 0 <= j < m.entries().len() && #[trigger] f.ensures((m.entries()[j],), v)
+            ==> deref_pairs(v@) == sel_pairs(m.entries()[j].0, m.entries()[j].1.0@, vec, vec.len() as int),
+    ensures r.pairs() == all_pairs(m.entries(), vec, m.entries().len() as int),
 { unimplemented!() }
 """
 
@@ -490,15 +509,25 @@ def add_timeout(U):
          header_subs=[("validator::Schedule", "Schedule")],
          subs=[("if !(&sum & signers).is_empty()", "if !sum.bitand(signers).is_empty()   /* R-op */"),
                ("sum |= signers;", "sum.bitor_assign(signers);   // R-op"),
-               # R-stub: the nested flat_map key selection (UNVERIFIED statement, see stub_tqc_messages_and_keys)
-               ("""self.map.clone().into_iter().flat_map(|(msg, signers)| {
-            validators_schedule
-                .keys()
-                .enumerate()
-                .filter(|(i, _)| signers.0[*i])
-                .map(|(_, pk)| (msg.clone(), pk))
-                .collect::<Vec<_>>()
-        })""", "stub_tqc_messages_and_keys(&self.map, validators_schedule)   /* R-stub */")],
+               ("signers.0[*i]", "signers.0.get_bit(*i)")],
+         chains=[
+             # inner pipeline (inside the flat_map closure): one entry's (vote, key) pairs
+             dict(recv="validators_schedule", methods=["keys", "enumerate", "filter", "map", "collect"],
+                  closures={2: dict(ty="&(usize, &PublicKey)", ret="b: bool",
+                                    spec="requires {p}.0 < signers.0@.len() ensures b == signers.0@[{p}.0 as int]"),
+                            3: dict(ty="(usize, &PublicKey)", ret="x: (ReplicaTimeout, &PublicKey)",
+                                    spec="ensures x.0 == msg && x.1 == {p}.1")},
+                  template="{{ proof {{ lemma_sel_seq_pairs::<ReplicaTimeout>(|i: int| signers.0@[i], |i: int| (msg, validators_schedule.vec@[i].key), msg, signers.0@, "
+                           "validators_schedule.vec@, validators_schedule.vec@.len() as int); }} "
+                           "tmpl_schedule_keys_enumerate_filter_map_collect(validators_schedule, {a2}, {a3}, Ghost(|i: int| signers.0@[i]), "
+                           "Ghost(|i: int| (msg, validators_schedule.vec@[i].key))) }}"),
+             # outer pipeline: all entries
+             dict(recv="self.map", methods=["clone", "into_iter", "flat_map"],
+                  closures={2: dict(ty="(ReplicaTimeout, Signers)", ret="v: Vec<(ReplicaTimeout, &PublicKey)>",
+                                    spec="requires {p}.1.0@.len() == validators_schedule.vec@.len() "
+                                         "ensures deref_pairs(v@) == sel_pairs({p}.0, {p}.1.0@, validators_schedule.vec@, validators_schedule.vec@.len() as int)")},
+                  template="tmpl_map_clone_into_iter_flat_map(&self.map, {a2}, Ghost(validators_schedule.vec@))"),
+         ],
          index_loops={0: dict(prefix="for (i, (msg, signers)) in self.map.iter().enumerate()",
                               len="self.map.len()", spec_len="self.map.entries().len()", at="self.map.entry_at({i})", pat="(msg, signers)", idx="i",
                               inv="""
@@ -531,6 +560,12 @@ def add_timeout(U):
                 return Err(TimeoutQCVerifyError::OverlappingSignatureSet(i));"""),
              ("msg.verify(genesis_hash, epoch, validators_schedule)",
               "proof { assert(self.entry_ok(i as int, genesis_hash, epoch, validators_schedule) ==> msg.valid(genesis_hash, epoch, validators_schedule)); } msg.verify(genesis_hash, epoch, validators_schedule)"),
+             ("let messages_and_keys =", """proof {
+            assert forall|j: int| 0 <= j < self.map.entries().len() implies (#[trigger] self.map.entries()[j]).1.0@.len() == validators_schedule.vec@.len() by {
+                assert(self.entry_ok(j, %s));
+            }
+        }
+        let messages_and_keys =""" % "genesis_hash, epoch, validators_schedule"),
              ("sum.bitor_assign(signers);", """let ghost sum0 = sum.0@;
             sum.bitor_assign(signers);
             proof {
